@@ -171,6 +171,22 @@ def denseSample (s : List Char) (ml : Int) : List Int → List Char
   | [] => []
   | loc :: rest => PySlice.slice s (some (loc * ml)) (some ((loc + 1) * ml)) 1 ++ denseSample s ml rest
 
+/-- the kept blocks joined, on a plain string -/
+def denseKeep (s : List Char) (locs : List (Int × Int)) : List Char :=
+  locs.flatMap fun c => PySlice.slice s (some c.1) (some c.2) 1
+
+/-- `Alignment.filtered`: the run-length blocks `[(gv[0], gv[1]), (gv[2], gv[3]), …]` of the columns
+for which the predicate holds (`mask`), scanning with the `kept` toggle; `start` = first column of
+the block being extended -/
+def maskRuns (pos : Int) (start : Option Int) : List Bool → List (Int × Int)
+  | [] => match start with | some s => [(s, pos)] | none => []
+  | true :: r => maskRuns (pos + 1) (some (start.getD pos)) r
+  | false :: r => (match start with | some s => [(s, pos)] | none => []) ++ maskRuns (pos + 1) none r
+
+/-- `ArrayAlignment.filtered`: take the columns for which the predicate holds -/
+def denseFilter (s : List Char) (mask : List Bool) : List Char :=
+  ((s.zip mask).filter (·.2)).map (·.1)
+
 /-! ### operation histories on both classes -/
 
 /-- the operations of a history (on either class) -/
@@ -179,6 +195,7 @@ inductive AOp where
   | takePositions (cols : List Int) (neg : Bool) | toRna | toDna | addSelf | addCopy
   | keep (locs : List (Int × Int))
   | degap (name : String) | sample (locs : List Int) (ml : Int) | reparse
+  | filterMask (mask : List Bool)
 
 /-- one operation on the annotatable class (`dna` tracks DNA vs RNA complementing) -/
 def stepA (dna : Bool) (a : AlnA) : AOp → Except Err (AlnA × Bool)
@@ -203,6 +220,13 @@ def stepA (dna : Bool) (a : AlnA) : AOp → Except Err (AlnA × Bool)
     (mapRows (fun r => (rowSample r ml locs).map rowOfString) a).map (·, dna)
   -- `to_type(array_align=True).to_type(array_align=False)`: rows rebuilt from `to_dict()`
   | .reparse => .ok (a.map fun p => (p.1, rowOfString (gapped p.2)), dna)
+  -- `filtered(predicate)` (also `no_degenerates`, `omit_gap_pos`) with the predicate already
+  -- evaluated on the columns: run-length FeatureMap of the kept blocks, then `gapped_by_map`;
+  -- `None` (here an error) when nothing is kept
+  | .filterMask mask =>
+    match maskRuns 0 none mask with
+    | [] => .error .notImplemented
+    | locs => (mapRows (fun r => rowKeep r locs) a).map (·, dna)
 
 /-- the same operation on the dense class = on the plain gapped strings (`none`: not modelled) -/
 def stepD (dna : Bool) (a : AlnD) : AOp → Option (Except Err (AlnD × Bool))
@@ -216,13 +240,16 @@ def stepD (dna : Bool) (a : AlnD) : AOp → Option (Except Err (AlnD × Bool))
   | .toDna => some (.ok (a.map fun p => (p.1, p.2.map toDna), true))
   | .addSelf => some (.ok (a.map fun p => (p.1, p.2 ++ p.2), dna))
   | .addCopy => some (.ok (a.map fun p => (p.1, p.2 ++ p.2), dna))
-  | .keep _ => none
+  | .keep locs => some (.ok (a.map fun p => (p.1, denseKeep p.2 locs), dna))
   | .degap name =>
     match a.find? (·.1 = name) with
     | none => some (.error .valueError)
     | some p => some ((mapDense (fun s => denseTake s (nonGapCols p.2)) a).map (·, dna))
   | .sample locs ml => some (.ok (a.map fun p => (p.1, denseSample p.2 ml locs), dna))
   | .reparse => some (.ok (a, dna))
+  | .filterMask mask =>
+    if mask.all (! ·) then some (.error .notImplemented)
+    else some (.ok (a.map fun p => (p.1, denseFilter p.2 mask), dna))
 
 /-- a whole history on the annotatable class -/
 def runA (dna : Bool) (a : AlnA) : List AOp → Except Err (AlnA × Bool)
